@@ -67,7 +67,9 @@ Arith(op, a, b) ==
          LET x == NumToK(a)
              y == NumToK(b)
          IN  IF IsU(x) \/ IsU(y) THEN U ELSE CASE op = "plus" -> KAdd(x, y) [] op = "minus" -> KSub(x, y) [] OTHER -> KMul(x, y)
-    ELSE U      \* Zahl x Byte: checker and generator disagree on the result type
+    ELSE LET x == BToZ(a).v      \* Zahl and Byte mixed: the Byte is widened, the result is a Zahl
+             y == BToZ(b).v
+         IN  ZV(CASE op = "plus" -> Add(x, y) [] op = "minus" -> Sub(x, y) [] OTHER -> Mul(x, y))
 
 Compare(op, a, b) ==
     IF IsU(a) \/ IsU(b) THEN U
@@ -86,21 +88,21 @@ ModOp(a, b) ==
     ELSE LET x == BToZ(a).v
              y == BToZ(b).v
          IN  IF y = Zero \/ (x = MinInt /\ y = FromInt(0 - 1)) THEN U
-             ELSE IF a.k # b.k THEN U                                   \* mixed width: see C02
              ELSE ZV(SRem(x, y))
 
 BitOp(op, a, b) ==
     IF IsU(a) \/ IsU(b) THEN U
     ELSE IF a.k = "Z" /\ b.k = "Z" THEN ZV(CASE op = "band" -> BAnd(a.v, b.v) [] op = "bor" -> BOr(a.v, b.v) [] OTHER -> BXor(a.v, b.v))
     ELSE IF a.k = "B" /\ b.k = "B" THEN BV(CASE op = "band" -> a.v & b.v [] op = "bor" -> a.v | b.v [] OTHER -> a.v ^^ b.v)
-    ELSE U
+    ELSE LET x == BToZ(a).v      \* mixed: the Byte is widened
+             y == BToZ(b).v
+         IN  ZV(CASE op = "band" -> BAnd(x, y) [] op = "bor" -> BOr(x, y) [] OTHER -> BXor(x, y))
 
-ShiftOp(op, a, b) ==
-    IF IsU(a) \/ IsU(b) \/ a.k # b.k THEN U
-    ELSE IF a.k = "Z" THEN
-         IF ~FitsSmall(b.v) \/ ToSmall(b.v) < 0 \/ ToSmall(b.v) > 63 THEN U
-         ELSE ZV(IF op = "shl" THEN Shl(a.v, ToSmall(b.v)) ELSE Shr(a.v, ToSmall(b.v)))
-    ELSE IF b.v > 7 THEN U ELSE BV(IF op = "shl" THEN (a.v * (2 ^ b.v)) % 256 ELSE a.v \div (2 ^ b.v))
+ShiftOp(op, a, b) ==      \* the result has the type of the left operand; an amount outside 0..width-1 is open
+    IF IsU(a) \/ IsU(b) THEN U
+    ELSE LET n == SmallIdx(b)
+         IN  IF a.k = "Z" THEN (IF n < 0 \/ n > 63 THEN U ELSE ZV(IF op = "shl" THEN Shl(a.v, n) ELSE Shr(a.v, n)))
+             ELSE IF n < 0 \/ n > 7 THEN U ELSE BV(IF op = "shl" THEN (a.v * (2 ^ n)) % 256 ELSE a.v \div (2 ^ n))
 
 (* ---------------- texts and lists ---------------- *)
 Clamp(i, lo, hi) == IF i < lo THEN lo ELSE IF i > hi THEN hi ELSE i
